@@ -17,7 +17,7 @@ import time
 
 import vf
 
-WORKLOADS = ["C18", "C11", "C19", "C16", "C34", "C28", "C27", "C25", "C26", "C29"]
+WORKLOADS = os.environ.get("VERIF_C36_WORKLOADS", "C18 C11 C19 C16 C34 C28 C27 C25 C26 C29").split()
 
 
 def frames(block):
@@ -37,7 +37,8 @@ def frames(block):
                 path = os.path.basename(path)
             if "verif_on.go" in path or "verif_ptr.go" in path:
                 continue  # the instrumentation itself is never the finding
-            f = fn.split("(")[0].replace("github.com/gopcua/opcua/", "").replace("github.com/gopcua/opcua.", "opcua.")
+            f = re.sub(r"\(\)$", "", fn).replace("github.com/gopcua/opcua/", "").replace("github.com/gopcua/opcua.", "opcua.")
+            f = re.sub(r"\.func\d+(\.\d+)*$", "", f)
             return "%s@%s:%s" % (f, path, m.group(2))
     return None
 
